@@ -6,6 +6,11 @@ ALL = ["C%02d" % i for i in range(1, 21)]
 
 # property -> dict(level, text, note, technique, engine, design_ref)
 CLAIMED = {
+  "C05": dict(level="exploration", engine="E1",
+    text="Bounded-exhaustive exploration of rule programs: every rule tree of depth <= 2 (thorough: same depth, L+1 sources, 8 languages) over per-language atoms and all operators (all/any/not, inside/has/precedes/follows x stopBy x field, nthChild An+B/reverse/ofRule, multi-key objects), loaded through the real YAML deserialiser, evaluated on every node of every tree from token strings <= L, and compared with an independent recursive reference evaluator (DESIGN A.2). ~7e8 (rule,node) evaluations in the quick tier.",
+    note="Atoms (pattern/kind/regex) inside the reference are the real matchers (their semantics is C02/C03's subject); trees with zero-width nodes and trees where tree-sitter's cursor sibling walk disagrees with next()/prev() are excluded as stated in the evidence.",
+    technique="bounded-exhaustive enumeration of rule programs x inputs, differential against a reference evaluator",
+    design_ref="DESIGN.md §3 C05, Appendix A.2"),
   "C19": dict(level="exploration", engine="E1",
     text="Bounded-exhaustive exploration: every token string up to L (quick 4/3, thorough 5/4) over a per-language alphabet in all 23 grammars plus corpus snippets, every node; navigation, traversals and positions compared with a recursive child(i) baseline and a byte-level position reference. Small-scope coverage statement, not a proof.",
     note="Trusts tree-sitter's child(i)/parent()/next_sibling() as the baseline and the grammar tables compiled into ast-grep-language; dev profile with debug assertions.",
